@@ -191,10 +191,14 @@ class Vertex(base.BaseObject):
         -- linked, unlinked, or anything else, to maintain cache integrity and
         prevent stale data.
         """
+        # drop the entries whether or not caching is enabled right now: they
+        # may have been filled while it was, and would be served again -- stale
+        # -- the next time it is switched back on
+        self.__qa_nb_cache = {}
+
         if not self.NEIGHBOR_CACHING:
             return
         self._cache_stats()[2] += 1
-        self.__qa_nb_cache = {}
 
     def _qa_neighbors_insert(self, answer, *args):
         """
